@@ -647,3 +647,58 @@ func (ip *Interp) ProveZeroSplit(st *State, d lin.Form, depth int) bool {
 	}
 	return false
 }
+
+// SolveEqualities rewrites f using the equalities among the path facts (pairs G >= 0 and -G >= 0) by Gaussian
+// elimination: each equality is solved for a symbol with coefficient ±1 (auxiliary symbols first) and substituted
+// into f and into the remaining equalities. Used where a position must become a constant.
+func (st *State) SolveEqualities(f lin.Form) lin.Form {
+	if f.IsConst() {
+		return f
+	}
+	var eqs []lin.Form
+	for i := 0; i < len(st.Facts); i++ {
+		if st.Facts[i].F.IsConst() {
+			continue
+		}
+		for j := i + 1; j < len(st.Facts); j++ {
+			if s := st.Facts[i].F.Add(st.Facts[j].F); s.IsConst() && s.C == 0 {
+				eqs = append(eqs, st.Facts[i].F)
+				break
+			}
+		}
+	}
+	aux := func(s string) int {
+		switch {
+		case strings.HasPrefix(s, "σ"), strings.HasPrefix(s, "val("):
+			return 0
+		case strings.HasPrefix(s, "$"):
+			return 2
+		}
+		return 1
+	}
+	for k := 0; k < len(eqs) && !f.IsConst(); k++ {
+		g := eqs[k]
+		if g.IsConst() {
+			continue
+		}
+		pivot := ""
+		for _, sy := range g.Syms() {
+			if c := g.Coef(sy); c == 1 || c == -1 {
+				if pivot == "" || aux(sy) < aux(pivot) {
+					pivot = sy
+				}
+			}
+		}
+		if pivot == "" {
+			continue
+		}
+		c := g.Coef(pivot)
+		val := g.Sub(lin.Sym(pivot).Scale(c)).Scale(-c)
+		sub := map[string]lin.Form{pivot: val}
+		f = f.Subst(sub)
+		for m := k + 1; m < len(eqs); m++ {
+			eqs[m] = eqs[m].Subst(sub)
+		}
+	}
+	return f
+}
